@@ -131,6 +131,7 @@ class C13(Engine):
         else:
             res.probe("reference_accepted")
         api_ref = None
+        api_mask = None
 
         for p in plan["perts"]:
             dim = p["dim"]
@@ -192,6 +193,7 @@ class C13(Engine):
                     res.probe("history_api_skipped_includes")
                     continue
                 if api_ref is None:
+                    api_mask = None
                     api_ref = self.api_call(ex, res, digests, [{"cpu": cpu, "code": code}], None)
                     if api_ref is None:
                         continue
@@ -208,9 +210,18 @@ class C13(Engine):
                     res.probe("history_api_empty_image")
                     if org1 != org0:
                         res.viol("history-api:next-origin-differs", org=(org0, org1))
-                elif st0 == 0 and (bytes1 != bytes0 or org1 != org0):
-                    res.viol("history-api:image-differs", first_diff=first_diff(bytes1, bytes0), org=(org0, org1),
-                             history=[(h["cpu"], h["code"][:300]) for h in p["history"]])
+                elif st0 == 0:
+                    # the interactive asm command writes what it assembles into the image it shares with the rest of the session:
+                    # only the bytes the block itself assembles are compared (those that are the same whether the fresh image was
+                    # zero or 0xff before), the gaps between its .org's keep what the history left there
+                    if api_mask is None:
+                        ff = self.api_call(ex, res, digests, [{"cpu": cpu, "code": code, "kind": 3}], rng_dump)
+                        api_mask = [i for i in range(len(bytes0)) if ff is not None and i < len(ff[5]) and ff[5][i] == bytes0[i]]
+                    b1 = bytes(bytes1[i] for i in api_mask if i < len(bytes1))
+                    b0 = bytes(bytes0[i] for i in api_mask)
+                    if b1 != b0 or org1 != org0:
+                        res.viol("history-api:image-differs", first_diff=first_diff(b1, b0), org=(org0, org1),
+                                 history=[(h["cpu"], h["code"][:300]) for h in p["history"]])
                 res.probe("dim:history-api")
                 continue
             o = asm(argv, env, extra, build="small" if dim == "build" else None)
@@ -250,7 +261,7 @@ class C13(Engine):
         w = W()
         w.u32(len(steps))
         for i, s in enumerate(steps):
-            w.u8(1)
+            w.u8(s.get("kind", 1))
             w.bytes(s["cpu"])
             w.bytes(s["code"])
             w.u32(0)
